@@ -221,7 +221,7 @@ PROPS = {
   # both flavours of resolving (`resolve`, `resolve_mut`: every resolve line is also run as resolve_mut), and the
   # position the error names ("the error names the first step that fails")
   twin_ops={"resolve": "resolve_mut"},
-  ops={"deep": dict(fields=[], laws=["law_deep"]), "resolve": dict(fields=["r", "val", _locate("pos")], spec=[("r", "spec_r", ident)], laws=["law_walk", "law_fwd"]),
+  ops={"deep": dict(fields=[], laws=["law_deep"]), "resolve": dict(fields=["r", "val", _locate("pos")], spec=[("r", "spec_r", ident)], laws=["law_walk", "law_fwd", "law_nodes"]),
        "resolve_mut": dict(fields=["r", "val", _locate("pos")], spec=[("r", "spec_r", ident)], laws=["law_walk", "law_fwd"])},
   rule="all documents of a tiny grammar × all pointers of ≤2 (quick) / ≤3 (thorough) tokens over a delicate pool, + seeded random documents with path-directed / perturbed / free pointers; non-trivial: ≥2 tokens or an index/escaped token, on a container",
   exhaustive="155 tiny documents × all pointers of ≤2/≤3 tokens over {a,0,1,-,00,~0}",
